@@ -148,7 +148,8 @@ CLAIMS['C15'] = {
             'strings, other is not self, a function\'s __pjrpc_meta__ dict and a registry\'s name table are different '
             'objects (field regions, A-fields); coarse frame ($containers + *.__pjrpc_meta__) compensated by whole-view '
             'clauses on both registries; function identity is a heap reference; __name__ of a callable is an uninterpreted '
-            'string attribute',
+            'string attribute; KNOWN FINDING (known_findings.json, not repaired): a view member that is a public alias of a '
+            'private function is registered under the private __name__',
 }
 CLAIMS['C18'] = {
     'text': 'aiohttp / flask / werkzeug _rpc_handle and the werkzeug WSGI entry point are each proved against ONE spec '
